@@ -74,6 +74,12 @@ def lineContexts : Option Ctx → List Str → List Ctx
     let c' := (parse l').ctx
     c' :: lineContexts (some c') ls
 
+/-- the `length` handed to `ircutils.wrap` ("~" when the reply goes out as one message) -/
+def wrapLength (e : Env) (cfg : Cfg) (s : Str) : String :=
+  match prepare e cfg s with
+  | some (allowed, s1, false) => toString (allowed - suffixReserve (blen s1))
+  | _ => "~"
+
 /-- state of the driver: the list stored in `_mores` for the (single) requester -/
 abbrev St := List Out
 
@@ -130,7 +136,7 @@ def stepLine (st : St) : List String → St × String
                | none => st),
               "sent\t" ++ encOuts now ++ "\t" ++ (match stored with
                 | some l => encOuts l
-                | none => "~"))
+                | none => "~") ++ "\t" ++ wrapLength e cfg s)
            | .wrapFailed r => (st, "wrapfailed\t" ++ encRes r)
            | .unsupported => (st, "unsupported"))
     | _, _, _, _ => (st, "bad-op")
